@@ -443,6 +443,27 @@ func conv(t_dst, t_src types.Type, x value) value {
 // int32: CVTTSD2SL (-> 0x80000000); narrower signed/unsigned up to 32 bits go through the
 // 64-bit (uint32: 64-bit, then truncate) or 32-bit conversion and are truncated.
 func float2int(f *term, dso ssort, dsigned bool) *term {
+	// int -> float64 -> int round trip of a value that fits 32 bits is exact: skip the FP terms.
+	if (f.op == oSBV2F || f.op == oUBV2F) && len(f.args) == 1 {
+		a := f.args[0]
+		small := a.sort.width() <= 32
+		if (a.op == oSExt && f.op == oSBV2F || a.op == oZExt) && a.args[0].sort.width() <= 32 {
+			small = true
+		}
+		if small {
+			aw, dw := a.sort.width(), dso.width()
+			switch {
+			case aw == dw:
+				return a
+			case aw > dw:
+				return tExtract(a, dw-1, 0)
+			case f.op == oSBV2F:
+				return tSExt(a, dw)
+			default:
+				return tZExt(a, dw)
+			}
+		}
+	}
 	two63 := mkF64(9223372036854775808.0)
 	in64 := tAnd(mk(oFLt, sBool, f, two63), mk(oFLe, sBool, mkF64(-9223372036854775808.0), f))
 	c64 := tIte(in64, mk(oF2SBV, sBV64, f), tBV(64, 0x8000000000000000))
